@@ -15,7 +15,7 @@ import opmods
 from wasmgen import module_for, encode, arg_vectors, decode, v8
 from wasmgen import wasm_ast as A
 
-GENS = [("Macros", "gen_macros"), ("EmitTable", "gen_emit")]
+GENS = [("Macros", "gen_macros"), ("EmitTable", "gen_emit"), ("AtomicEmit", "gen_atomic_emit")]
 CORPUS = os.path.join(vlib.TOOLS, "corpus")
 
 
@@ -508,7 +508,7 @@ NAN_LEAK_OPS = {"i32.reinterpret_f32", "i64.reinterpret_f64", "f32.copysign", "f
 
 
 def _is_core_op(op):
-    """instruction covered by Model/Sim.lean (still outside: data.drop, atomics)"""
+    """instruction covered by Model/Sim.lean (still outside: data.drop, memory.atomic.wait/notify)"""
     if op in CORE_OPS or op in ("global.get", "global.set", "memory.size", "memory.grow", "memory.copy", "memory.fill", "memory.init"):
         return True
     o = A.OPS.get(op)
@@ -516,6 +516,8 @@ def _is_core_op(op):
         return False
     if o.imm == "memarg" and o.prefix is None:
         return True
+    if o.prefix == 0xFE:                  # atomic load/store/rmw/cmpxchg and fence, as executed by one thread
+        return op == "atomic.fence" or (o.imm == "memarg" and not op.startswith("memory.atomic."))
     return o.imm == "none" and o.prefix in (None, 0xFC)
 
 
